@@ -45,7 +45,7 @@ def market_history(seed, max_events=40, tick=1.0, prices=(8, 12), offgrid=False,
         ev = None
         if r < 0.6:
             mkt = rng.random() < 0.2
-            p = None if mkt else float(rng.randint(*prices)) + (rng.choice([0.0, 0.25, 0.5]) if offgrid else 0.0)
+            p = None if mkt else float(rng.randint(*prices)) + (rng.choice([0.0, 0.25, 0.5, 0.78125, 0.21875, 0.03125]) if offgrid else 0.0)
             if offgrid and not mkt and rng.random() < 0.15:
                 p = rng.choice([0.25, 0.75, 1.5, 2.0 ** -20, 10 - 2.0 ** -36, 10 + 2.0 ** -36]) * tick      # below the first grid level, and a hair off a level
             o = Order(agent_id=rng.randint(0, 2), market_id=0, is_buy=rng.random() < 0.5, kind=MARKET_ORDER if mkt else LIMIT_ORDER,
